@@ -1,5 +1,6 @@
 import MuscleModel.Engines.Msg
 import MuscleModel.Engines.Queue
+import MuscleModel.Engines.RWMutex
 import MuscleModel.Engines.Srv
 import MuscleModel.Engines.Tunnel
 import MuscleModel.Engines.Wildcard
@@ -18,6 +19,7 @@ partial def loop (h : IO.FS.Stream) (out : IO.FS.Stream) (e : Engine) (s : e.σ)
 def engines : List (String × Engine) := [
   ("msg", MsgEngine.engine),
   ("q", QueueEngine.engine),
+  ("rw", RWEngine.engine),
   ("srv", SrvEngine.engine),
   ("tun", TunEngine.engine),
   ("wc", WcEngine.engine)
